@@ -33,6 +33,7 @@ COMPONENT_SORT = {
     "set.has": z3.ArraySort(Val, Bool),
     "set.card": Int,
     "bytearray.data": Bytes,
+    "list.nodeowned": Bool,     # ghost: the object is referred to from a field of an AST node (set when stored there)
 }
 
 
@@ -60,6 +61,7 @@ class State:
         self.ghost = {}
         self.yielded = None         # SeqV term for generators
         self.trail = []             # branch decisions, for reporting
+        self.preserve = {}
         self.origin = None          # callee whose contract is being applied (writes made on its behalf)
         self._wf_seen = set()
         self._pc_ids = set()
@@ -83,6 +85,7 @@ class State:
         n._wf_seen = set(self._wf_seen)
         n._pc_ids = set(self._pc_ids)
         n.origin = self.origin
+        n.preserve = self.preserve
         n.old_ids = self.old_ids
         n.univ = list(self.univ)
         n.idx = list(self.idx)
@@ -137,6 +140,7 @@ class State:
         a = self.comp(name, sort)
         t = select_store(a, ref, self.old_ids)
         self.base_wf(a, ref)
+        self.preserved(a, ref)
         if a.sort().range() == Val and not z3.is_app_of(t, z3.Z3_OP_DT_CONSTRUCTOR):
             # well-formed heap at all times: a stored reference was allocated before it was stored
             k = ("rd", t.get_id())
@@ -144,6 +148,34 @@ class State:
                 self._wf_seen.add(k)
                 self.pc.append(z3.Implies(Val.is_R(t), z3.And(Val.r(t) >= 0, Val.r(t) < self.alloc_ptr())))
         return t
+
+    def preserved(self, a, ref, depth=0):
+        """a component that was havocked 'except where cond' keeps its old value at every location satisfying cond:
+        the fact is instantiated at the locations actually read"""
+        base = a
+        while z3.is_app(base) and base.decl().kind() == z3.Z3_OP_STORE:
+            base = base.arg(0)
+        rec = self.preserve.get(base.get_id()) if z3.is_const(base) else None
+        if rec is None or depth > 6:
+            return
+        prev, cond = rec
+        k = ("pres", base.get_id(), ref.get_id())
+        if k in self._wf_seen:
+            return
+        self._wf_seen.add(k)
+        old = select_store(prev, ref, self.old_ids)
+        self.pc.append(z3.Implies(cond(ref), z3.Select(base, ref) == old))
+        self.base_wf(prev, ref)
+        self.preserved(prev, ref, depth + 1)
+
+    def havoc_comp_except(self, name, cond, sort=None):
+        """havoc a whole component but keep the locations where cond(ref) holds (cond is evaluated in the pre-havoc state)"""
+        a = self.comp(name, sort)
+        new = fresh("Hx." + name, a.sort())
+        self.preserve = dict(self.preserve)
+        self.preserve[new.get_id()] = (a, cond)
+        self.H[name] = new
+        self.writes.append((name, None, self.origin, cond))
 
     def base_wf(self, a, ref):
         """well-formed initial heap: references stored in the heap *at entry* are below ALLOC0"""
@@ -165,7 +197,7 @@ class State:
 
     def write(self, name, ref, value, sort=None):
         self.H[name] = z3.Store(self.comp(name, sort), ref, value)
-        self.writes.append((name, ref, self.origin))
+        self.writes.append((name, ref, self.origin, None))
 
     def havoc_at(self, name, ref, sort=None):
         s = sort if sort is not None else self.comp(name, sort).sort().range()
@@ -176,7 +208,7 @@ class State:
     def havoc_comp(self, name, sort=None):
         a = self.comp(name, sort)
         self.H[name] = fresh("Hh." + name, a.sort())
-        self.writes.append((name, None, self.origin))
+        self.writes.append((name, None, self.origin, None))
 
     def alloc_ptr(self):
         return self.alloc_base + self.alloc_off
@@ -186,6 +218,7 @@ class State:
         self.alloc_off += 1
         # class tags never change: one global array; allocating fixes the (so far unconstrained) tag of the new reference
         self.pc.append(z3.Select(self.comp("cls"), r) == clsid(cls))
+        self.H["list.nodeowned"] = z3.Store(self.comp("list.nodeowned"), r, z3.BoolVal(False))
         return r
 
     def bump_alloc(self):
